@@ -290,3 +290,17 @@ reg("C07", "c07",
     "validity.",
     "Mutations stay inside well-formed git objects (go-git rejects others). Entity-level MergeAll; the cache build is used for "
     "locally stored data.", "DESIGN.md section 4, C07")
+
+reg("C04", "c04",
+    "TLA+ spec Fidelity.tla (id stability, author-run split, readers see exactly the committed operations) model-checked by TLC; "
+    "recorded sessions of random operations validated by TLC",
+    "The specification fixes what never changes once an operation is appended (id, payload digest, author, position; the entity id "
+    "= id of the first operation, predicted before any commit), how a commit splits the staging area (one pack per maximal "
+    "same-author run, one edit-clock tick per pack), that an operation's id is the hash of its stored form, and that every reader "
+    "sees exactly the committed operations, valid, with the same logical times and every attached file. The harness generates "
+    "operation sequences over all eight kinds with unicode (combining marks, RTL, emoji), long and whitespace-only texts, many "
+    "metadata keys, attached files (also the same file twice) and several authors per staging area, commits in arbitrary "
+    "chunks, and reads back through bug.Read, bug.ReadAll, the cache, and a second replica after push / pull, on go-git and on "
+    "the mock repository; TLC accepts a session only if every Append, Commit and Read event satisfies the specification.",
+    "Digests (SHA-256 of a canonical rendering) stand for payloads; hash of the stored form recomputed by the harness.",
+    "DESIGN.md section 4, C04")
